@@ -57,4 +57,18 @@ CHECKS.update({
   "text": "ecdh (all hash choices), ellswift_decode / encode / create / xdh (both parties, all hashers) ~9k records quick; decode compared with a BIP-324 model on random strings, u/t in {0,p,p+1,2^256-1}, the u^3+t^2+7=0 family, with the map branch (x1/x2/x3) and remap taken logged per record; every encoding decodes back to its key in library and model.",
   "note": "Trusted: ref/ellswift.py."},
 })
+CHECKS.update({
+ "C11": {
+  "technique": "runtime monitoring: sanitizer build + canonical-encoding and ring-equation reference oracle; post-condition monitors on initialize/generate; allocation monitor",
+  "text": "surjectionproof initialize (all (n, subset) pairs for n <= 8, boundary sizes up to 256, match position/multiplicity, iteration limits) with post-conditions, generate+verify with matching and invalid keys, verify compared with an independent model on library proofs and reference-prover proofs (small forged scalars, s+n re-encodings, empty-selection forgery from public data), tag/count edits, the parser on every n_inputs field 0..599 and sampled to 65535, every padding-bit pattern, length +-1/32; allocate_initialized/destroy must balance malloc/free.",
+  "note": "Trusted: ref/surjection.py, ref/borromean.py. The intra-struct overrun of a 257..263-input parse is invisible to ASan and is caught by the format model instead."},
+ "C12": {
+  "technique": "runtime monitoring: sanitizer build + BIP-327 reference oracle over complete sessions incl. model-made co-signers that cancel aggregate nonce components",
+  "text": "~400 (quick) full MuSig2 sessions: key aggregation (cache fields read through the library's load helper), plain/x-only tweak sequences incl. the tweak that cancels the aggregate key, both nonce-generation entry points with every optional-argument subset and 64-bit counters, nonce aggregation incl. infinity components, session fields, partial signatures, partial verification against wrong key/nonce/session/value, aggregation in permuted order, BIP-340 verification of the result, adaptor adapt/extract; every value compared with a BIP-327 model.",
+  "note": "Trusted: ref/musig.py, ref/schnorr.py; shim views use secp256k1_keyagg_cache_load / secp256k1_musig_session_load."},
+ "C13": {
+  "technique": "runtime monitoring: bounded exhaustive enumeration of API call histories against an abstract single-use automaton + object-state monitor (nonce bytes, callback counts, ledger)",
+  "text": "every sequence to depth 3 (quick, from 2 start states) / 4 (thorough, 4 start states) over a 34-symbol alphabet of nonce_gen / nonce_gen_counter / partial_sign calls with valid and invalid arguments on two nonce objects, plus 200 / 20000 random histories of length 50; after every call the nonce object must be all-zero unless a generation succeeded, a failing call must not write a signature, successful signatures equal the BIP-327 value, and a ledger shows at most one signature per generated nonce.",
+  "note": "Trusted: the automaton in props/c13.py; ref/musig.py. Copies of a live nonce made by the caller are outside the property."},
+})
 NOT_APPLICABLE = {}
